@@ -7,15 +7,77 @@ VERIF = os.path.dirname(os.path.dirname(os.path.abspath(__file__)))
 
 TECH = "bounded symbolic execution of the compiled Rust (Kani 0.68 -> CBMC 6.11, CaDiCaL SAT): UNSAT over all symbolic contents of the stated shapes, or a counterexample replayed natively"
 
+BOUND = (" Bounds (quick / thorough): operand stack depths 0..need+1 / +2, vector lengths 0..2 / 0..3, queue capacity 2; all depths and lengths "
+         "are enumerated concretely, all contents are symbolic (every i32 / f32 bit pattern). Outside the bounds nothing is claimed.")
+TRUST = ("Trusted: Kani 0.68 / CBMC 6.11 / CaDiCaL and rustc's MIR; the three registry stubs (RandomState::new fixed keys, Instruction::new closure "
+         "wrapper, HashMap<String,Instruction>::insert association-list model) - every other line executed is /repo's current code; "
+         "CBMC's own pointer/NaN instrumentation is off (no unsafe in pushr), Rust panics and unwinding assertions are on. ")
+
 CLAIMED = {
+    "C01": dict(
+        text="Model checking (bounded), restricted: for every registered instruction whose body neither clones/drops an Item nor inserts into a HashMap (about 200 of 280 names; the list is recomputed from the source and printed in the evidence), ONE execution dispatched by name through the real registry from every bounded pre-state is shown free of Rust panics (overflow, bounds, unwrap, division, empty random range) by the SAT solver." + BOUND + " Not covered: interpreter glue (step/run over real programs), multi-step programs, generated programs, the Item-touching instructions, EXEC.CMD.",
+        note=TRUST + "rand/names replaced by contract shims (every draw symbolic); size operands of ONES/ZEROS/RAND/SINE/FROMINT take the concrete values -1..3 here (magnitude is C15's subject); index operand of YANK/SHOVE/YANKDUP on CODE/EXEC/NAME/vector stacks takes a concrete value set.",
+        ref="DESIGN.md section 4, C01"),
+    "C02": dict(
+        text="Model checking (bounded): the accounting code of the real PushInterpreter::run is checked against EVERY behaviour of a step: step is replaced by a nondeterministic stand-in (arbitrary growth 0..4, arbitrary completion flag), the clock by arbitrary non-decreasing instants; eval_push_limit in -1..2 (..4 thorough) one harness each, growth_cap 0..2 and eval_time_limit symbolic. Asserted: outcome vs. an independent accounting of the logged steps (NoErrors only after a completed step, StepLimitExceeded exactly after limit+1 steps, GrowthCapExceeded exactly when a step grew the state by more than the cap, TimeLimitExceeded only after the observed time passed the limit), never more than limit+1 steps, no step after the time limit, state changed only through steps. Plus the real step on an empty EXEC stack (completion, nothing changes) and run on an empty program.",
+        note=TRUST + "Stubs in this check: PushInterpreter::step (stand-in), Instant::now / Instant::elapsed (symbolic clock), InstructionSet::cache (empty cache). Real programs cannot be stepped under CBMC (Item clone/drop): equivalence of run with k real steps on real programs and the EXEC->CODE copy of a non-empty program are NOT covered.",
+        ref="DESIGN.md section 4, C02"),
+    "C04": dict(
+        text="Model checking (bounded): for each BOOLEAN.*, INTEGER.*, FLOAT.*, NAME.=, NAME.CAT and *.FROM* instruction, dispatched by name through the real registry, the post-state of one execution equals a reference model written from the documentation on every stack, for all operand values (all i32 / f32 bit patterns) and all operand-stack depths 0..need+1; when an operand is missing only already-taken operands may be consumed." + BOUND,
+        note=TRUST + "Value left free where the statement allows it or CBMC's model is inexact: unrepresentable integer results, FLOAT.% SIN COS TAN EXP and FLOAT./ quotients (shape, operand consumption and zero-divisor guard still asserted). INTEGER./ and % semantic harnesses: operands in [-64,63]+{MIN,MAX} (no-panic harness: all i32). FLOAT.*: operands with <= 7 significant mantissa bits. Profile independence is decided as 'no reachable overflow/debug assertion' plus native replay in both profiles.",
+        ref="DESIGN.md section 4, C04"),
+    "C05": dict(
+        text="Model checking (bounded): SWAP, ROT, YANK, SHOVE, STACKDEPTH on all nine stack types and DUP, YANKDUP, POP, FLUSH on the seven types whose items can be copied/dropped under CBMC, each dispatched by name, compared with ONE generic position map (index popped first, clamped, position 0 = top) for every stack depth 0..4 and every index." + BOUND,
+        note=TRUST + "Index operand: any i32 on BOOLEAN/INTEGER/FLOAT; the concrete set {MIN,-1,0,1,depth-1,depth,MAX} on NAME/CODE/EXEC/vector stacks (Vec::remove/insert of large elements with a symbolic index exhausts CBMC). CODE/EXEC items are integer atoms with symbolic payload. DUP/YANKDUP/POP/FLUSH on CODE and EXEC clone or drop an Item: not covered.",
+        ref="DESIGN.md section 4, C05"),
+    "C09": dict(
+        text="Model checking (bounded): every BOOLVECTOR/INTVECTOR/FLOATVECTOR instruction except DEFINE, RAND (C13) and INTVECTOR.LOOP, dispatched by name through the real registry (so a name bound to the wrong function is a counterexample), equals a reference model of the README overlap rule and the doc comments, for two vectors of independent lengths 0..2 (0..3 thorough), every offset / index (any i32) and every element value." + BOUND,
+        note=TRUST + "Left free: quotients of FLOATVECTOR./, values of SINE, order of a float sort containing NaN, elements whose exact integer result overflows. FLOATVECTOR.* / *SCALAR / MEAN: elements with <= 7 significant mantissa bits. Size operands of ONES/ZEROS/FROMINT/SINE take the concrete values -1..3.",
+        ref="DESIGN.md section 4, C09"),
+    "C10": dict(
+        text="Model checking (bounded): for every instruction with a reference model (about 170 names), with every non-operand stack holding a symbolic bystander item: if an operand is missing or a guard fails, at most a top suffix of the operand stacks is consumed and nothing else changes (no push, binding, flag, queue or index change); if it applies, every stack outside the documented operand/result footprint is element-wise identical. All too-short patterns of the operand stacks (depth 0..need) are enumerated." + BOUND,
+        note=TRUST + "The footprint is taken from the hand-written reference model (harness/src/spec.rs). Item-touching instructions (DEFINE family, GRAPH.*, most CODE/EXEC/LIST instructions) are not covered.",
+        ref="DESIGN.md section 4, C10"),
+    "C12": dict(
+        text="Model checking (bounded), restricted to what CBMC can execute: decompose(n) for n = 1..6 yields positive parts summing to n for EVERY draw sequence; random_code_with_size(n) for n = 1, 2 has exactly n points and only documented leaf kinds (instruction from the supplied list, NOOP when it is empty; the three vector-literal arms are proved unreachable); random_code(max) returns nothing for max = 0, 1 without panicking and 1..max-1 points for max = 2; CODE.RAND through the registry with max-points 1, 2, -2 and ANY INTEGER operand (incl. i32::MIN) consumes its operand, never panics and never exceeds |n| nor the configured maximum.",
+        note=TRUST + "rand shim: every draw symbolic under rand's range contract. Sizes >= 3 do not finish (the generated item's variant is symbolic and every by-reference walk forks on it): NOT covered. 'A currently bound name' needs a populated HashMap: not covered. Executability/printability of generated programs: not covered.",
+        ref="DESIGN.md section 4, C12"),
+    "C13": dict(
+        text="Model checking (bounded): with every random draw a free variable constrained only by rand's documented contract, random_integer / random_float (any configured bounds), random_int_vector, random_float_vector, random_bool_vector (sizes -1..4 enumerated, all other parameters any value incl. NaN/inf) return exactly the documented Some/None, lengths, element ranges and TRUE-count (within the documented rounding), never panic and terminate; 'every position can become TRUE' is decided as an existential cover obligation per position; INTEGER/FLOAT/BOOLEAN/INTVECTOR/FLOATVECTOR/BOOLVECTOR.RAND through the registry pop their operands in the documented order and push only in-range results.",
+        note=TRUST + "Shim contracts are part of the claim (DESIGN 3.4). Fairness cut: executions of BOOLVECTOR.RAND needing more than size+2 draws are not explored. NAME.RANDBOUNDNAME with a non-empty binding table needs a real HashMap: not covered. Distribution quality is not a safety property.",
+        ref="DESIGN.md section 4, C13"),
+    "C14": dict(
+        text="Model checking (bounded), sequential single-step part only: (a) Node::new - the only code touching the process-wide counter - hands out strictly increasing ids over any 4 consecutive calls after 0..3 earlier calls; (b) for every Item-free, RAND-free instruction: executing it on two states with identical symbolic contents, with node-id allocation in between, yields identical post-states (no dependence on hidden process state).",
+        note=TRUST + "Kani has no thread model: concurrent schedules, the CLI front end, whole-program reproducibility and HashMap iteration order are NOT covered.",
+        ref="DESIGN.md section 4, C14"),
+    "C15": dict(
+        text="Model checking (bounded): for every Item-free instruction with an INTEGER/FLOAT operand, from every bounded state with integer operands anywhere in [-100000, 100000] (state size <= 9): every loop stays within the unwinding bound 10 and every resulting vector length is <= 9, every stack grows by <= 2. A violated unwinding or length assertion yields the operand; replay runs it natively.",
+        note=TRUST + "Growth of CODE/EXEC items under DUP/LIST/APPEND/EXEC.Y and max_points_in_program (whole-program, Item) and LIST.NEIGHBOR* (symbolic execution of the nested scan does not finish) are NOT covered. The operand-sized allocations of ONES/ZEROS/*.RAND are genuine violations recorded in known_findings.json.",
+        ref="DESIGN.md section 4, C15"),
     "C16": dict(
-        text="Model checking (bounded): for every public PushStack<i32> method, one call from EVERY stack of length 0..4 (5 thorough) with arbitrary contents and arbitrary position/count arguments (any usize) is compared by the SAT solver with an array model (position 0 = top) - the inductive step covering histories of any length - plus seeded K-step operation sequences from the empty stack. Printing (core::fmt) and element type Item are outside the claim.",
-        note="Trusted: Kani/CBMC translation of rustc MIR, CaDiCaL; the hand-written sequence model in harness/src/c16_stack.rs; <i32 as ToString>::to_string replaced by an injective 8-byte encoding in the equal_at harness only (core::fmt is out of CBMC's reach). Lengths are enumerated concretely (a symbolic Vec length makes CBMC's memmove model explode); contents and positions are symbolic.",
-        ref="DESIGN.md section 4, C16",
-    ),
+        text="Model checking (bounded): for every public PushStack<i32> method, one call from EVERY stack of length 0..4 (5 thorough) with arbitrary contents and arbitrary position/count arguments (any usize) is compared by the SAT solver with an array model (position 0 = top) - the inductive step covering histories of any length - plus seeded K-step operation sequences from the empty stack.",
+        note="Trusted: Kani/CBMC translation of rustc MIR, CaDiCaL; the hand-written sequence model in harness/src/c16_stack.rs; <i32 as ToString>::to_string replaced by an injective 8-byte encoding in the equal_at harness only (core::fmt is out of CBMC's reach). Lengths and bulk counts are enumerated concretely; contents and positions are symbolic. Printing and element type Item are NOT covered.",
+        ref="DESIGN.md section 4, C16"),
+    "C17": dict(
+        text="Model checking (bounded): PushBuffer<i32>, both kinds, capacity 1..3 (..4 thorough): every public method from EVERY valid internal representation (all (end,len) cursor combinations are reached by a driving prefix with symbolic parameters) equals a bounded-deque model, size never exceeds capacity; K-step symbolic operation sequences; INPUT.READ/GET/NEXT/AVAILABLE/STACKDEPTH and OUTPUT.WRITE/FLUSH/STACKDEPTH through the registry on queues of 0..2 messages with bodies of length 0..2 (FIFO consumption, program-order enqueue, clamped bit index, full queue contents compared).",
+        note=TRUST + "PushBuffer::to_string (core::fmt) is NOT covered - by reading, it starts at slot `start` and prints a stale slot; that clause of the property is outside the claim.",
+        ref="DESIGN.md section 4, C17"),
+    "C20": dict(
+        text="Model checking (bounded): decompose_index is a bijection for edge 1..4 x dimensions 1..3 and every index; find_neighbors for every ntotal 1..9 (..16), ndim 1..3, every centre and ANY f32 radius equals the brute-force set computed from exact integer squared distances in the smallest enclosing hypercube (which implies: contains the centre, ascending, no repeats, valid indices, symmetric, monotone in the radius); invalid centre / zero sizes give no neighbourhood; LIST.NEIGHBOR*IDS through the registry with operand tuples in [-4,4] clamps as documented.",
+        note=TRUST + "f32::powf is replaced by a lookup table generated on every run from the REAL libm for exactly the argument set of this domain (so the edge length is the one the shipped binary computes); sqrt is CBMC's. LIST.NEIGHBOR*{B,I,F}VALS read records through Item::find (clone): not covered.",
+        ref="DESIGN.md section 4, C20"),
 }
 
-NOT_APPLICABLE = {}
+NA_COMMON = " Solver-based checking of the real code (Kani/CBMC) cannot encode it within reach; no other technique is substituted."
+NOT_APPLICABLE = {
+    "C03": "parse_program does not finish under CBMC even on a concrete 11-byte string (str::split_whitespace, str::parse::<f32>, Item drops); a hand model of the tokenizer would not be the real code." + NA_COMMON,
+    "C06": "every combinator / loop instruction clones the body Item and the iteration counts are properties of multi-step runs of the real step(); cloning or dropping any Item (even a concrete one) does not finish under CBMC." + NA_COMMON,
+    "C07": "bindings live in a real HashMap<String, Item> (insert/lookup = SipHash + hashbrown probing, replaced values are dropped Items) and lookup happens inside step()." + NA_COMMON,
+    "C08": "the substance (EXTRACT/INSERT/POSITION/CONTAINER/SUBST/CAR/CDR/CONS/LIST/NTH/MEMBER/CONTAINS/=/DISCREPANCY, and even SIZE and ATOM) clones, drops, prints or recursively walks Items; Item::size on a 3-point tree did not finish in 300 s. Only CODE.LENGTH/NULL/APPEND are reachable and they are covered by C01/C10, not claimed as C08." + NA_COMMON,
+    "C11": "both halves are core::fmt (Display of Item / PushStack::to_string) and the parser (see C03)." + NA_COMMON,
+    "C18": "every graph operation is a real HashMap<usize,_> insert/remove/iterate (two add_node calls exceed 400 s); the textual diff is core::fmt." + NA_COMMON,
+    "C19": "LIST.GET/SET/REMOVE/BVAL/IVAL/FVAL clone or drop Items; LIST.ADD alone was built but does not finish (the record's element variants are symbolic and every inspection forks on them; 400 s timeout even for an empty id vector)." + NA_COMMON,
+}
 
 
 def main():
